@@ -29,6 +29,18 @@ from pedal.sandbox.result import SandboxResult
 from pedal.sandbox.tracer import TRACER_STYLES
 
 
+def _read_captured(buffer):
+    """
+    The text student code wrote to the given captured standard output. Student
+    code can close its own ``sys.stdout``; whatever it printed is gone then,
+    which must not make the execution itself fail.
+    """
+    try:
+        return buffer.getvalue()
+    except ValueError:
+        return ""
+
+
 class Sandbox:
     """
     Args:
@@ -169,7 +181,7 @@ class Sandbox:
             self._stop_patches()
             if self._current_stdout:
                 abandoned_stdout = self._current_stdout.pop()
-                self.append_output(abandoned_stdout.getvalue(), self._context[-1])
+                self.append_output(_read_captured(abandoned_stdout), self._context[-1])
             self._capture_exception(timeout_exception, sys.exc_info(),
                                     code, filename)
             self._next_context_id += 1
@@ -578,7 +590,7 @@ class Sandbox:
             raise SystemExit
         self._stop_patches()
         current_stdout = self._current_stdout.pop()
-        self.append_output(current_stdout.getvalue(), context)
+        self.append_output(_read_captured(current_stdout), context)
         _verif_sync("finalize:exit")
 
     @staticmethod
